@@ -684,6 +684,12 @@ class _IfExpStmts(ast.NodeTransformer):
             return self._split(node, node.value, lambda v: ast.Assign(targets=[copy.deepcopy(node.targets[0])], value=v))
         return node
 
+    def visit_AnnAssign(self, node: ast.AnnAssign) -> ast.AST:
+        # an annotated local (`x: T = a if c else b`): the annotation has no run-time effect inside a function
+        if isinstance(node.value, ast.IfExp) and node.simple and isinstance(node.target, ast.Name):
+            return self._split(node, node.value, lambda v: ast.Assign(targets=[ast.Name(id=node.target.id, ctx=ast.Store())], value=v))
+        return node
+
     def visit_Return(self, node: ast.Return) -> ast.AST:
         if isinstance(node.value, ast.IfExp):
             return self._split(node, node.value, lambda v: ast.Return(value=v))
